@@ -267,6 +267,20 @@ func genRequest(c *cors.Config, r R) reqT {
 		q.hdrs["Access-Control-Request-Headers"] = []string{}
 	case 4:
 		q.hdrs["Access-Control-Request-Headers"] = []string{""}
+	case 6: // the configured names in the order (and grouping) they were configured in, lower-cased
+		if c != nil && len(c.RequestHeaders) > 0 {
+			var l []string
+			for _, n := range c.RequestHeaders {
+				if n != "*" {
+					l = append(l, strings.ToLower(n))
+				}
+			}
+			if r.chance(1, 2) {
+				q.hdrs["Access-Control-Request-Headers"] = []string{strings.Join(l, ",")}
+			} else {
+				q.hdrs["Access-Control-Request-Headers"] = perturbLines(r, l)
+			}
+		}
 	case 5: // junk
 		q.hdrs["Access-Control-Request-Headers"] = []string{r.pick([]string{",,,", "  ", "x-foo,,x-bar", "\x00", "x-foo;x-bar", strings.Repeat(",", 17), strings.Repeat("a", 300), "X-FOO"})}
 	default:
